@@ -279,6 +279,8 @@ def drive(mod, tier, seed, nproc=None):
     timeout_ms = meta.get('timeout_ms', {}).get(tier, 60000)
     results = run_jobs(mod.__name__, jobs, nproc=nproc, timeout_ms=timeout_ms) if not harness_errors else []
 
+    if hasattr(mod, 'postprocess') and results:
+        results = mod.postprocess(results)
     tot = dict(n_obl=0, n_discharged=0, n_nontrivial=0, n_inconclusive=0, n_optional_inconclusive=0,
                twins_ok=0, twins_bad=0, paths=0, queries=0, solver_s=0.0, validated=0, excluded=0)
     max_q = 0.0
